@@ -708,6 +708,23 @@ class HyASTCompiler:
 
     @builds_model(Dict)
     def compile_dict(self, m):
+        # Each `#** x` stands for a whole key-value pair; everything
+        # else has to come in pairs.
+        key = None
+        for x in m:
+            if key is None:
+                if not is_unpack("mapping", x):
+                    key = x
+            elif is_unpack("mapping", x):
+                raise self._syntax_error(
+                    x, "`unpack-mapping` is not allowed in place of a dictionary value"
+                )
+            else:
+                key = None
+        if key is not None:
+            raise self._syntax_error(
+                key, "dictionary literal has a key without a value"
+            )
         keyvalues, ret, _ = self._compile_collect(m, dict_display=True)
         return ret + asty.Dict(m, keys=keyvalues[::2], values=keyvalues[1::2])
 
